@@ -411,7 +411,8 @@ type stepResult struct {
 	Calls     []string // mutating calls issued by the real reconciler
 	Err       string   // reconcile error
 	Panic     string
-	Real      bool // executed real controller code
+	Real      bool // a reconcile transition (real controller code)
+	Executed  bool // false: this (state, reconcile) pair had already been executed (memo)
 	QueueInfo string
 }
 
@@ -431,9 +432,16 @@ func reconcilePG(c client.Client) (errStr, panicStr string) {
 
 // applyA executes one transition on a fresh store holding exactly state s.
 func applyA(s *stateA, e eventA) (*stepResult, error) {
-	log := &callLog{}
-	counted, raw := newStatusClient(s.objects(), log)
 	res := &stepResult{}
+	if e.Op == "reconcile" {
+		r, executed, err := reconcileMemoA(s)
+		if err != nil {
+			return nil, err
+		}
+		res.Real, res.Executed, res.Err, res.Panic, res.Calls, res.Next = true, executed, r.err, r.panic, r.calls, r.next
+		return res, nil
+	}
+	_, raw := newStatusClient(s.objects(), nil)
 	switch e.Op {
 	case "reconcile":
 		res.Real = true
@@ -541,18 +549,49 @@ func reconcileQueue(c client.Client, name string) (errStr string) {
 	return
 }
 
-// fixpointA reconciles the pod group until nothing changes, then (end-to-end) the two queues
-// above it, child first then parent then both again.
-func fixpointA(s *stateA, withQueues bool) (*fixA, error) {
-	f := &fixA{}
+// recMemoA: one real reconcile per distinct store state (a reconcile is a deterministic function
+// of the store; the determinism replays re-execute a fixed fraction and compare). Both the
+// reconcile(pg) history event and the fixpoint walk go through it.
+type recResA struct {
+	next       *stateA
+	err, panic string
+	calls      []string
+}
+
+var recMemoA = map[string]*recResA{}
+
+func reconcileMemoA(s *stateA) (r *recResA, executed bool, err error) {
+	k := s.key()
+	if r, ok := recMemoA[k]; ok {
+		return r, false, nil
+	}
 	log := &callLog{}
 	counted, raw := newStatusClient(s.objects(), log)
+	r = &recResA{}
+	r.err, r.panic = reconcilePG(counted)
+	r.calls = append([]string{}, log.calls...)
+	if r.next, err = snapshotA(raw); err != nil {
+		return nil, true, err
+	}
+	recMemoA[k] = r
+	return r, true, nil
+}
+
+// fixpointA reconciles the pod group until nothing changes, then (end-to-end) the two queues
+// above it: child, parent, then both once more.
+func fixpointA(s *stateA, withQueues bool) (*fixA, error) {
+	f := &fixA{}
 	cur := s
 	for i := 0; i < 4; i++ {
-		log.reset()
-		f.Err, f.Panic = reconcilePG(counted)
-		f.Reconciles++
-		for _, cl := range log.calls {
+		r, executed, err := reconcileMemoA(cur)
+		if err != nil {
+			return nil, err
+		}
+		if executed {
+			f.Reconciles++
+		}
+		f.Err, f.Panic = r.err, r.panic
+		for _, cl := range r.calls {
 			if cl != "patch PodGroup/status "+nsA+"/"+pgName {
 				f.ExtraCalls = append(f.ExtraCalls, cl)
 			}
@@ -561,15 +600,11 @@ func fixpointA(s *stateA, withQueues bool) (*fixA, error) {
 			f.Final = cur
 			return f, nil
 		}
-		next, err := snapshotA(raw)
-		if err != nil {
-			return nil, err
-		}
-		same := next.key() == cur.key()
-		if same && len(log.calls) > 0 {
+		same := r.next.key() == cur.key()
+		if same && len(r.calls) > 0 && executed {
 			f.NoopPatches++
 		}
-		cur = next
+		cur = r.next
 		if same {
 			f.Converged = true
 			break
@@ -583,7 +618,8 @@ func fixpointA(s *stateA, withQueues bool) (*fixA, error) {
 			f.QueueRoot, f.QueueLeaf, f.QueueErr = c.root, c.leaf, c.err
 			return f, nil
 		}
-		for r := 0; r < 2; r++ { // child, parent, then once more each (must be a no-op)
+		counted, raw := newStatusClient(cur.objects(), &callLog{})
+		for r := 0; r < 2; r++ {
 			f.QueueRounds++
 			for _, q := range []string{"leaf", "root"} {
 				if e := reconcileQueue(counted, q); e != "" {
